@@ -137,17 +137,55 @@ Fixpoint cut (c : byte) (s : bytes) : bytes * option bytes :=
               else let '(a, b) := cut c r in (x :: a, b)
   end.
 
-(* ASCII white space as removed by strings.TrimSpace: \t \n \v \f \r and space *)
+(* strings.TrimSpace removes the runes of unicode.IsSpace at both ends: the ASCII blanks \t \n \v \f \r and space,
+   U+0085, U+00A0, U+1680, U+2000..U+200A, U+2028, U+2029, U+202F, U+205F and U+3000.  A rune is decoded at the
+   left end by DecodeRuneInString and at the right end by DecodeLastRuneInString; both return one of these runes
+   exactly when its (unique, well-formed) encoding is a prefix, respectively a suffix, of the string, so the model
+   matches the encodings as byte patterns. *)
 Definition is_space (c : byte) : bool :=
   beq c " "%byte || (N.leb 9 (b2n c) && N.leb (b2n c) 13).
 
+Definition space2 (a b : N) : bool := N.eqb a 194 && (N.eqb b 133 || N.eqb b 160).
+Definition space3 (a b c : N) : bool :=
+  (N.eqb a 225 && N.eqb b 154 && N.eqb c 128)
+  || (N.eqb a 226 && N.eqb b 128 && ((N.leb 128 c && N.leb c 138) || N.eqb c 168 || N.eqb c 169 || N.eqb c 175))
+  || (N.eqb a 226 && N.eqb b 129 && N.eqb c 159)
+  || (N.eqb a 227 && N.eqb b 128 && N.eqb c 128).
+
 Fixpoint trim_left_space (s : bytes) : bytes :=
   match s with
-  | x :: r => if is_space x then trim_left_space r else s
+  | x :: r =>
+      if is_space x then trim_left_space r else
+      match r with
+      | y :: r2 =>
+          if space2 (b2n x) (b2n y) then trim_left_space r2 else
+          match r2 with
+          | z :: r3 => if space3 (b2n x) (b2n y) (b2n z) then trim_left_space r3 else s
+          | [] => s
+          end
+      | [] => s
+      end
   | [] => []
   end.
 
-Definition trim_space (s : bytes) : bytes := rev (trim_left_space (rev (trim_left_space s))).
+(* the same on the reversed string: the encodings are matched last byte first *)
+Fixpoint trim_left_space_rev (s : bytes) : bytes :=
+  match s with
+  | x :: r =>
+      if is_space x then trim_left_space_rev r else
+      match r with
+      | y :: r2 =>
+          if space2 (b2n y) (b2n x) then trim_left_space_rev r2 else
+          match r2 with
+          | z :: r3 => if space3 (b2n z) (b2n y) (b2n x) then trim_left_space_rev r3 else s
+          | [] => s
+          end
+      | [] => s
+      end
+  | [] => []
+  end.
+
+Definition trim_space (s : bytes) : bytes := rev (trim_left_space_rev (rev (trim_left_space s))).
 
 Definition remove_byte (c : byte) (s : bytes) : bytes := filter (fun x => negb (beq x c)) s.
 
